@@ -121,7 +121,7 @@ DerDo(d) ==
     /\ cur'  = {Derive(d, g, NRows(x0)) : g \in cur}
     /\ mech' = {Derive(d, g, NRows(x0)) : g \in mech}
     /\ tag'  = IF d.kind = "values" THEN <<>> ELSE tag
-    /\ own'  = TRUE
+    /\ own'  = IF d.kind \in ViewKinds THEN own ELSE TRUE        \* a slice of an array is a view of the same data
     /\ UNCHANGED <<x0, x, y, root, lastms, lastlim, n>>
 Der(d) == DerOK(d) /\ DerDo(d) /\ UNCHANGED pend
 
